@@ -99,6 +99,16 @@ impl VoronoiCell {
         VoronoiCell::init(loc, centroid, volume, convex_cell.safety_radius, convex_cell.idx)
     }
 
+    /// Placeholder for a cell that is not constructed (partial construction): zero volume and
+    /// centroid, but it remembers which generator it belongs to, so that the faces linked to
+    /// it by constructed neighbours are interpreted correctly.
+    pub(super) fn unconstructed(idx: usize) -> Self {
+        Self {
+            idx,
+            ..Self::default()
+        }
+    }
+
     pub(super) fn finalize(&mut self, face_connections_offset: usize, face_count: usize) {
         self.face_connections_offset = face_connections_offset;
         self.face_count = face_count;
